@@ -1,8 +1,12 @@
 package sim
 
 import (
+	"context"
 	"fmt"
 	"math/rand/v2"
+
+	"github.com/yorkie-team/yorkie/api/types"
+	"github.com/yorkie-team/yorkie/server/backend/database"
 
 	"github.com/yorkie-team/yorkie/pkg/attachable"
 )
@@ -121,7 +125,7 @@ func c16Config(r *rand.Rand) *RunConfig {
 		SnapshotThreshold: pickN(r, []int64{2, 5, 500, 1000}), SnapshotInterval: pickN(r, []int64{1, 2, 5, 500}), SnapshotCacheSize: int(pickN(r, []int64{1, 10})),
 		Kinds: swarmKinds(r, []string{"obj", "text", "cnt", "arr", "nest"}, "create"),
 		Extra: map[string]int{"cons_pct": 50, "reattach_pct": 15 * r.IntN(2), "deactivate_pct": 15 * r.IntN(2), "compact_pct": 30 * r.IntN(2), "attach_presence": 50,
-			"housekeeping_pct": 40 * r.IntN(2), "dup_pct": 25 * r.IntN(2)},
+			"housekeeping_pct": 40 * r.IntN(2), "dup_pct": 25 * r.IntN(2), "crash_permille": 8 * r.IntN(2)},
 		ClientDeactivateThreshold: "24h",
 	}
 	applyKnownFindingSplits(r, cfg)
@@ -132,6 +136,49 @@ func c16Config(r *rand.Rand) *RunConfig {
 type schedMonitor struct{ prop string }
 
 func (m *schedMonitor) AfterStep(rc *RunCtx, i int, st *Step, res *StepResult) *Violation {
+	if st.Op != "par" && i < len(rc.Trace) && rc.Trace[i].Op == "par" && res.Err != nil && classify(res.Err) == "crash" {
+		switch st.Op {
+		case "attach", "detach", "deactivate":
+			// a lifecycle call that was in flight when the server process died: the SDK and
+			// the server may disagree about the attachment from now on; in the session
+			// model the user reloads (the slot is out of the game, like after housekeeping)
+			rc.Excluded[st.C] = "lifecycle call lost in a server crash"
+			rc.W.probe("lifecycle_call_lost_in_crash")
+		}
+	}
+	if st.Op == "par" && res.Out == "crashed" {
+		// the server died in the middle of the housekeeping task's work: a client whose
+		// document it had already detached (the deactivation itself did not get stored) is
+		// on its way out exactly like one that was deactivated
+		hk := false
+		for _, sub := range st.Sub {
+			if sub.Op == "housekeeping" {
+				hk = true
+			}
+		}
+		if hk {
+			ctx := context.Background()
+			for _, sc := range rc.W.Clients {
+				if sc == nil || sc.Closed || !sc.Cli.IsActive() || sc.Docs[0] == nil || sc.Docs[0].Doc.Status() != attachable.StatusAttached {
+					continue
+				}
+				info, err := rc.W.mem.FindClientInfoByRefKey(ctx, types.ClientRefKey{ProjectID: rc.W.Projects[sc.Proj].ID, ClientID: types.IDFromActorID(sc.Cli.ID())})
+				if err != nil {
+					continue
+				}
+				attachedOnServer := false
+				for _, di := range info.Documents {
+					if di.Status == database.DocumentAttached {
+						attachedOnServer = true
+					}
+				}
+				if !attachedOnServer {
+					rc.Excluded[sc.Idx] = "detached by the housekeeping task before the server died"
+					rc.W.probe("housekeeping_half_done_at_crash")
+				}
+			}
+		}
+	}
 	if st.Op == "par" {
 		rc.W.probe("parallel_section")
 		rc.W.Stats.Probes["parallel_tasks"] += len(res.Sub)
